@@ -87,6 +87,9 @@ CORPUS_COORD = [
     {"D": [], "F": ["g", "h"], "cands": [[], ["g"]], "shadow": []},
     {"D": [], "F": ["g"], "cands": [["h"]], "shadow": []},
     {"D": [], "F": ["g"], "cands": [["h", "k"], ["m"]], "shadow": []},
+    # lateral candidates whose order by depth and by length of the path string differ
+    {"D": [], "F": ["m"], "cands": [["observations"], ["a", "b"]], "shadow": []},
+    {"D": ["g"], "F": ["g", "m"], "cands": [["g", "a", "b"], ["g", "long_group_1"]], "shadow": [], "outer": [[]]},
 ]
 
 
@@ -126,6 +129,17 @@ def rand_tree(rng, depth=0, maxdepth=3, visible=(), pools=None):
             c = rand_tree(rng, depth + 1, maxdepth, vis, pools)
             c["name"] = name
             t["subs"].append(c)
+    return t
+
+
+def vd_pick(c, v):
+    """a deterministic fifth of the variables (those spanning a dimension twice are always taken)"""
+    return (len(v["name"]) + len(v["dims"]) + c["i"]) % 5 == 0
+
+
+def group_of(t, path):
+    for p in path:
+        t = [c for c in t["subs"] if c["name"] == p][0]
     return t
 
 
@@ -475,7 +489,42 @@ def coord_case(rng):
         offs = [p for p in offs if p not in cands and all(c[:len(p)] != p for c in cands)]
         if offs:
             shadow.append(rng.choice(offs))
-    return {"D": D, "F": F, "cands": cands, "shadow": shadow, "strings": rng.random() < 0.15}
+    c = {"D": D, "F": F, "cands": cands, "shadow": shadow, "strings": rng.random() < 0.15}
+    # group names of varied length (1-12 characters), so that the order of the candidates by depth
+    # and their order by the length of the path string differ; with a bias towards long names
+    # near the root when there are lateral candidates at different depths
+    lat = [p for p in cands if F[:len(p)] != p]
+    names = rng.sample(NAMEPOOL, len(GROUPS))
+    if len({len(p) for p in lat}) > 1 and rng.random() < 0.5:
+        names.sort(key=len)
+        shallow = {p[len(D)] for p in lat if len(p) == min(len(q) for q in lat) and len(p) > len(D)}
+        order = sorted(GROUPS, key=lambda g_: (g_ in shallow, rng.random()))
+        ren = dict(zip(order, names))
+    else:
+        ren = dict(zip(GROUPS, names))
+    for k in ("D", "F"):
+        c[k] = [ren[x] for x in c[k]]
+    for k in ("cands", "shadow"):
+        c[k] = [[ren[x] for x in p] for p in c[k]]
+    # a dimension of the same name and another size in a group ABOVE the dimension's group: the
+    # data variable's "x" must stay bound to the nearest one
+    c["outer"] = []
+    if c["D"] and rng.random() < 0.4:
+        c["outer"].append(c["D"][:rng.randint(0, len(c["D"]) - 1)])
+    return c
+
+
+NAMEPOOL = ["a", "b", "c", "q", "gg", "hh", "obs", "run2", "model", "inner", "forecast", "analysis", "observations",
+            "long_group_1", "z9", "ensemble_m"]
+
+
+def order_disagrees(c):
+    """True if two lateral candidates are ordered differently by group depth and by the length of
+    their path string."""
+    F = c["F"]
+    lat = [p for p in c["cands"] if F[:len(p)] != p]
+    slen = lambda p: len("/" + "/".join(p + ["x"]))  # noqa
+    return any(len(p) < len(q) and slen(p) > slen(q) for p in lat for q in lat)
 
 
 def coord_tree(c):
@@ -492,6 +541,8 @@ def coord_tree(c):
             g = nxt[0]
         return g
 
+    for p in c.get("outer", []):
+        at(p)["dims"].append(["x", 5])
     at(c["D"])["dims"].append(["x", 3])
     for j, p in enumerate(c["cands"]):
         if c.get("strings"):
@@ -862,6 +913,8 @@ def run(chk, model_ok):
     lits, lit_case = [], []
     map_lits, map_case = [], []
     name_lits, name_case = [], []
+    vd_lits, vd_case = [], []
+    vd_cap = 400 if quick else 4000
     n_probe = 0
     distinct = set()
     for c, r in zip(ref_cases, rows):
@@ -911,6 +964,62 @@ def run(chk, model_ok):
                     comps = ab.split("/")[1:]
                     name_lits.append(f"({gbool(isdim)}, {gpath(comps[:-1])}, {gs(comps[-1])}, {gs(flat)}, {gs(ab)})")
                     name_case.append((c, flat, ab))
+        # ---- the same tree as a file, flattened through the netCDF4 and the h5netcdf backend
+        bk = r.get("backends")
+        if bk:
+            n4, h5 = bk.get("netCDF4", {}), bk.get("h5netcdf", {})
+            if "exc" in n4 or "exc" in h5:
+                chk.fail("property", "h5netcdf-differs:flatten-raised" if "exc" not in n4 else "file-flatten-raised",
+                         f"flattening the file (lax) raised: netCDF4 {n4.get('exc')} {n4.get('msg', '')}; h5netcdf {h5.get('exc')} {h5.get('msg', '')}",
+                         {"input": c["tree"], "observed": {"netCDF4": n4.get("exc"), "h5netcdf": h5.get("exc"), "msg": h5.get("msg"),
+                                                           "tb": h5.get("tb") or n4.get("tb"), "attrs": h5.get("attrs") or n4.get("attrs")}})
+            else:
+                bump("refs:flattened-through-both-backends")
+                # h5netcdf lists the dimensions of a group in another order than netCDF4 (harmless); when
+                # proposed names clash the counters may then be given out differently, so everything
+                # is compared after translation to absolute paths through each backend's own maps
+                dflat = {b_: a_ for a_, b_ in (x.split(": ") for x in n4["dimmap"])}
+                dflat5 = {b_: a_ for a_, b_ in (x.split(": ") for x in h5["dimmap"])}
+                for B in (n4, h5):
+                    dab = dict(x.split(": ") for x in B["dimmap"])
+                    B["varmap"], B["dimmap"] = sorted(x.split(": ")[1] for x in B["varmap"]), sorted(x.split(": ")[1] for x in B["dimmap"])
+                    B["dimsizes"] = {dab[k_]: v_ for k_, v_ in B["dimsizes"].items()}
+                    B["vardims_abs"] = {k_: [dab[d_] for d_ in v_] for k_, v_ in B["vardims"].items()}
+                same_names = sorted(n4["vardims"].items()) == sorted(h5["vardims"].items())
+                for key in ("varmap", "dimmap", "dimsizes", "vardims_abs") + (("refattrs",) if same_names else ()):
+                    if n4[key] != h5[key]:
+                        diff = n4[key] if not isinstance(n4[key], dict) else {k_: (n4[key].get(k_), h5[key].get(k_))
+                                                                              for k_ in set(n4[key]) | set(h5[key]) if n4[key].get(k_) != h5[key].get(k_)}
+                        chk.fail("property", f"h5netcdf-differs:flatten:{key}",
+                                 f"the flattened dataset differs between the backends in {key} (netCDF4, h5netcdf): {str(diff)[:300]}",
+                                 {"input": c["tree"], "expected": n4[key], "observed": h5[key]})
+                        break
+                # every variable's dimensions are the nearest enclosing definitions (oracle: a walk
+                # up the generated tree; model: nc_lookup_dim / h5_get_dims + the dimension map)
+                multi = False
+                for gp_, g_ in all_groups(c["tree"]):
+                    for v_ in g_["vars"]:
+                        ab = "/" + "/".join(list(gp_) + [v_["name"]])
+                        want = []
+                        for d_ in v_["dims"]:
+                            k_ = len(gp_)
+                            while k_ >= 0 and d_ not in [x_ for x_, _ in group_of(c["tree"], gp_[:k_])["dims"]]:
+                                k_ -= 1
+                            if k_ < len(gp_) and any(d_ in [x_ for x_, _ in group_of(c["tree"], gp_[:j_])["dims"]] for j_ in range(k_)):
+                                multi = True
+                            want.append("/" + "/".join(list(gp_[:k_]) + [d_]))
+                        for tag_, B, dfl in (("netCDF4", n4, dflat), ("h5netcdf", h5, dflat5)):
+                            got = B["vardims"].get(ab)
+                            if got != [dfl.get(w_) for w_ in want]:
+                                chk.fail("property", f"variable-dimensions-not-nearest:{tag_}",
+                                         f"{ab}{tuple(v_['dims'])} flattened through {tag_} spans {got}; the nearest enclosing dimensions are {want}",
+                                         {"input": c["tree"], "expected": want, "observed": got})
+                            if v_["dims"] and got is not None and tag_ == "h5netcdf" and same_names and len(vd_lits) < vd_cap and (
+                                    len(set(v_["dims"])) < len(v_["dims"]) or vd_pick(c, v_)):
+                                vd_lits.append(f"({tlit}, {gpath(list(reversed(gp_)))}, {gpath(v_['dims'])}, {gpath(got)}, {gbool(tag_ == 'h5netcdf')})")
+                                vd_case.append((c, ab, tag_, got))
+                if multi:
+                    bump("refs:variable-below-two-same-named-dimensions")
         for pr, ob in zip(c["probes"], r["probes"]):
             n_probe += 1
             rl = rules[pr["attr"]]
@@ -961,6 +1070,13 @@ def run(chk, model_ok):
         for i in bad[:20]:
             chk.fail("correspondence", "model-vs-impl:name-maps", "model and flattener disagree on the name-mapping attributes",
                      {"correspondence": "C11.Run.check_maps", "input": map_case[i]["tree"], "observed": rows[map_case[i]["i"]].get("varmap")})
+        bad = lib.coq_bad_indices("C11", REQ, "check_vardims", vd_lits, chunk=200)
+        ncorr += len(vd_lits)
+        for i in bad[:20]:
+            c, ab, tag_, got = vd_case[i]
+            chk.fail("correspondence", "model-vs-impl:variable-dimensions",
+                     f"model and flattener ({tag_}) disagree on the dimensions of {ab}: {got}",
+                     {"correspondence": "C11.Run.check_vardims", "input": c["tree"], "observed": got})
         bad = lib.coq_bad_indices("C11", REQ, "check_name", name_lits, chunk=600)
         ncorr += len(name_lits)
         for i in bad[:20]:
@@ -998,6 +1114,25 @@ def run(chk, model_ok):
         if r.get("dimcoord_values_again") != r.get("dimcoord_values"):
             chk.fail("property", "array-aliased", "the dimension coordinate's values changed after a returned array was overwritten",
                      {"input": c, "observed": [r.get("dimcoord_values"), r.get("dimcoord_values_again")]})
+        if order_disagrees(c):
+            bump("coord:lateral-depth-order-differs-from-string-length-order")
+        if c.get("outer"):
+            bump("coord:same-named-outer-dimension")
+        h5 = r.get("h5", {})
+        if "exc" in h5 or "missing" in h5:
+            chk.fail("property", "h5netcdf-differs:coordinate-file-not-read",
+                     f"the file that the netCDF4 backend reads could not be read with netcdf_backend='h5netcdf': {h5}",
+                     {"input": c, "observed": h5})
+        elif h5 and (h5.get("dimcoord") != r.get("dimcoord") or h5.get("shape") != r.get("shape")
+                     or h5.get("axis_ncdim") != r.get("axis_ncdim") or h5.get("dimcoord_values") != r.get("dimcoord_values")
+                     or h5.get("equals") is not True):
+            chk.fail("property", "h5netcdf-differs:coordinate-file",
+                     f"netcdf_backend='h5netcdf' gave dimension coordinate {h5.get('dimcoord')} shape {h5.get('shape')} axis {h5.get('axis_ncdim')}; "
+                     f"netCDF4 gave {r.get('dimcoord')} shape {r.get('shape')} axis {r.get('axis_ncdim')}",
+                     {"input": c, "expected": {k: r.get(k) for k in ("dimcoord", "shape", "axis_ncdim", "dimcoord_values")}, "observed": h5})
+        if r.get("shape") != [3]:
+            chk.fail("property", "coordinate-file-wrong-dimension", f"the data variable's axis has shape {r.get('shape')} instead of [3]",
+                     {"input": c, "observed": r})
         if c.get("strings"):
             bump("coord:string-valued")
         if max([len(c["F"])] + [len(p) for p in c["cands"]]) >= 4:
@@ -1008,7 +1143,7 @@ def run(chk, model_ok):
             gotp = tuple(nm.split("/")[1:-1]) if "/" in nm else ()
             if (nm.split("/")[-1] if "/" in nm else nm) != "x":
                 gotp = ("?",)
-        has_groups = bool(c["D"] or c["F"] or c["cands"] or c["shadow"])
+        has_groups = bool(c["D"] or c["F"] or c["cands"] or c["shadow"] or any(c.get("outer", [])))
         if gotp not in ok_set:
             explained.add(("coord", c["i"]))
             kind = "proximal" if any(c["F"][:len(p)] == p for p in c["cands"]) else "lateral"
@@ -1087,6 +1222,11 @@ def run(chk, model_ok):
     n_eval += run_fterms(chk, rng, quick, scratch, bump, distinct)
     lap("fterms")
 
+    # ======================================================= 6. group attributes at several nested levels
+    n_eval += run_gattrs(chk, model_ok, rng, quick, scratch, bump, distinct, stats)
+    ncorr += stats.pop("_ncorr", 0)
+    lap("gattrs")
+
     chk.coverage.update({
         "evaluations": n_eval,
         "distinct_nontrivial": len(distinct),
@@ -1117,6 +1257,173 @@ def run(chk, model_ok):
         "group and variable names are free of regular-expression metacharacters (the reader strips the group prefix of a flattened name with re.sub)",
         "the order in which netCDF4-python iterates dimensions, variables and sub-groups is taken from the library (the model is given the tree in that order)",
     ]
+
+
+GA_NAMES = ["comment", "source", "model_id", "experiment"]
+GA_GROUPS = ["a", "b", "c", "d", "grp", "lev"]
+
+# seed C11-s4: two nested levels define the same group attribute
+CORPUS_GATTRS = [
+    {"kind": "cfdm", "chain": ["a", "b"], "variables": [
+        {"name": "ta", "depth": 1, "standard_name": "air_temperature", "attrs": {"comment": "A"}, "group_attrs": ["comment"]},
+        {"name": "pa", "depth": 2, "standard_name": "air_pressure", "attrs": {"comment": "B"}, "group_attrs": ["comment"]}]},
+    {"kind": "hand", "chain": ["a", "b", "c"],
+     "levels": {"0": {"comment": "G", "source": "GS"}, "1": {"comment": "A", "model_id": "MA"}, "2": {"comment": "B"}, "3": {"experiment": "E3"}},
+     "variables": [{"name": "ta", "depth": 2, "standard_name": "air_temperature", "attrs": {}},
+                   {"name": "pa", "depth": 3, "standard_name": "air_pressure", "attrs": {"comment": "V"}},
+                   {"name": "ua", "depth": 1, "standard_name": "eastward_wind", "attrs": {}}]},
+]
+GA_STD = ["air_temperature", "air_pressure", "eastward_wind", "northward_wind", "upward_air_velocity", "specific_humidity"]
+
+
+def gattr_case(rng):
+    chain = rng.sample(GA_GROUPS, rng.choice([2, 3, 3, 4]))
+    n = len(chain)
+    if rng.random() < 0.6:
+        levels = {}
+        for d in range(0, n + 1):
+            at = {k: f"{k}@{d}" for k in GA_NAMES if rng.random() < (0.55 if k == "comment" else 0.3)}
+            if at:
+                levels[str(d)] = at
+        for d in rng.sample(range(1, n + 1), 2):           # one name at two nested levels at least
+            levels.setdefault(str(d), {})["comment"] = f"comment@{d}"
+        depths = rng.sample(range(0, n + 1), rng.choice([1, 2, 3])) if rng.random() < 0.3 else rng.sample(range(1, n + 1), rng.choice([1, 2]))
+        if max(depths) < 2:
+            depths[0] = n
+        variables = [{"name": f"v{j}", "depth": d, "standard_name": GA_STD[j],
+                      "attrs": {k: f"{k}@v{j}" for k in GA_NAMES if rng.random() < 0.25}} for j, d in enumerate(depths)]
+        return {"kind": "hand", "chain": chain, "levels": levels, "variables": variables}
+    depths = sorted(rng.sample(range(1, n + 1), rng.choice([2, 2, min(3, n), min(4, n)])))
+    if rng.random() < 0.25:
+        depths = [0] + depths
+    shared = rng.random() < 0.5
+    variables = []
+    for j, d in enumerate(depths):
+        attrs = {"comment": f"comment of v{j}"}
+        if rng.random() < 0.6:
+            attrs["model_id"] = "M" if shared else f"M{j}"
+        if rng.random() < 0.4:
+            attrs["source"] = "S" if shared else f"S{j}"
+        ga = [k for k in attrs if rng.random() < (0.8 if k == "comment" else 0.5)] if d > 0 else []
+        variables.append({"name": f"v{j}", "depth": d, "standard_name": GA_STD[j], "attrs": attrs, "group_attrs": ga})
+    # a name used as a group attribute above must be a property of every field below (a group
+    # attribute applies to everything in the group)
+    for v in variables:
+        for w in variables:
+            if w["depth"] > v["depth"]:
+                for k in v["group_attrs"]:
+                    w["attrs"].setdefault(k, f"{k} of {w['name']}")
+    return {"kind": "cfdm", "chain": chain, "variables": variables}
+
+
+def gattrs(d):
+    return glist(sorted(d.items()), lambda kv: f"({gs(kv[0])}, {gs(kv[1])})") if d else "(@nil (str * str))"
+
+
+def run_gattrs(chk, model_ok, rng, quick, scratch, bump, distinct, stats):
+    """Attribute inheritance down the group path: nearest group wins, the variable's own attribute
+    beats a group attribute, global attributes come last; recorded group attributes; both backends;
+    re-write grouped and flat."""
+    only = os.environ.get("C11_ONLY", "")
+    cases = [json.loads(json.dumps(c)) for c in CORPUS_GATTRS] if only in ("", "gattrs") else []
+    for _ in range(0 if only not in ("", "gattrs") else 60 if quick else 700):
+        cases.append(gattr_case(rng))
+    rows, crashed = run_family("gattrs", cases, scratch, nworkers=12)
+    for rc, err in crashed:
+        chk.fail("correspondence", "worker-crash", f"C11 gattrs worker died rc={rc}: {err}", {"correspondence": DRV + " gattrs"})
+    lits, lit_case, rlits, rlit_case = [], [], [], []
+    for c, r in zip(cases, rows):
+        if r is None:
+            continue
+        inp = {k: v for k, v in c.items() if k != "i"}
+        if "harness_err" in r:
+            chk.fail("correspondence", "harness-error", r["harness_err"], {"correspondence": DRV + " gattrs", "input": inp, "log": r.get("tb")})
+            continue
+        bump("gattrs:" + c["kind"])
+        distinct.add(lib.canon(["gattrs", inp]))
+        if "write_exc" in r:
+            chk.fail("property", "group-attributes:write-failed", r["write_exc"], {"input": inp})
+            continue
+        if "exc" in r["read"]:
+            chk.fail("property", "group-attributes:file-not-read", str(r["read"]), {"input": inp, "observed": r["read"]})
+            continue
+        chain = c["chain"]
+        F = r["file"]
+        fa = {tuple(x for x in p.split("/") if x): at for p, at in F["groups"].items() if p != "/"}
+        glob = F["groups"].get("/", {})
+        nested = max((sum(1 for d in range(1, v["depth"] + 1) if k in fa.get(tuple(chain[:d]), {}))
+                      for v in c["variables"] for k in GA_NAMES), default=0)
+        bump(f"gattrs:one-name-at-{min(nested, 4)}-nested-levels")
+        byvar = {f_["ncvar"]: f_ for f_ in r["read"]["fields"]}
+        if r["read_h5"] != r["read"]:
+            chk.fail("property", "h5netcdf-differs:group-attributes",
+                     f"netcdf_backend='h5netcdf' gives other properties / recorded group attributes than netCDF4: {str(r['read_h5'])[:300]}",
+                     {"input": inp, "expected": r["read"], "observed": r["read_h5"]})
+        for v in c["variables"]:
+            groups = chain[:v["depth"]]
+            ncvar = full_name(groups, v["name"])
+            got = byvar.get(ncvar)
+            if got is None:
+                chk.fail("property", "group-attributes:field-missing", f"no field for variable {ncvar}: {sorted(byvar)}", {"input": inp})
+                continue
+            va = F["vars"].get(ncvar, {})
+            # the hand-written file is what the generator said; the cfdm-written one is what the writer made
+            for k in GA_NAMES:
+                want = va.get(k)
+                if want is None:
+                    for d in range(len(groups), 0, -1):
+                        if k in fa.get(tuple(groups[:d]), {}):
+                            want = fa[tuple(groups[:d])][k]
+                            break
+                if want is None:
+                    want = glob.get(k)
+                have = got["props"].get(k)
+                if have != want:
+                    chk.fail("property", "group-attributes:precedence",
+                             f"property {k!r} of {ncvar}: read {have!r}; own attribute {va.get(k)!r}, groups (outermost first) "
+                             f"{[fa.get(tuple(groups[:d]), {}).get(k) for d in range(1, len(groups) + 1)]}, global {glob.get(k)!r} -> expected {want!r}",
+                             {"input": inp, "expected": want, "observed": have})
+                lits.append(f"({gattrs(glob)}, {glist(sorted(fa.items()), lambda pe: f'({gpath(list(pe[0]))}, {gattrs(pe[1])})')}, "
+                            f"{gpath(groups)}, {gattrs(va)}, {gs(k)}, " + ("(@None str)" if have is None else f"(Some {gs(have)})") + ")")
+                lit_case.append((inp, ncvar, k, have))
+            wantrec = sorted({k for d in range(1, len(groups) + 1) for k in fa.get(tuple(groups[:d]), {})})
+            if got["group_attrs"] != wantrec:
+                chk.fail("property", "group-attributes:recorded", f"{ncvar}: nc_group_attributes() names {got['group_attrs']}, the enclosing groups define {wantrec}",
+                         {"input": inp, "expected": wantrec, "observed": got["group_attrs"]})
+            rlits.append(f"({glist(sorted(fa.items()), lambda pe: f'({gpath(list(pe[0]))}, {gattrs(pe[1])})')}, {gpath(groups)}, {gattrs(va)}, {gpath(got['group_attrs'])})")
+            rlit_case.append((inp, ncvar, got["group_attrs"]))
+            if c["kind"] == "cfdm":
+                # the writer put every marked property on the field's own group, with its value
+                # (or, with the same value, on the nearest enclosing group that has one), not on the variable
+                for k in v["group_attrs"]:
+                    eff = next((fa[tuple(groups[:d])][k] for d in range(len(groups), 0, -1) if k in fa.get(tuple(groups[:d]), {})), None)
+                    if eff != v["attrs"][k] or k in va:
+                        chk.fail("property", "group-attribute-not-written",
+                                 f"{k}={v['attrs'][k]!r} of {ncvar}, marked as a group attribute: the groups give {eff!r}, the variable has {va.get(k)!r}",
+                                 {"input": inp, "observed": F["groups"]})
+        if c["kind"] == "cfdm" and r.get("equals_orig") != [True] * len(c["variables"]):
+            chk.fail("property", "group-attributes:readback-differs", f"fields written together in nested groups, read back: equal to the originals {r.get('equals_orig')}",
+                     {"input": inp, "observed": r["read"]})
+        for tag, what in (("G2", "grouped"), ("F2", "flat")):
+            R = r.get(tag, {})
+            if "exc" in R:
+                chk.fail("property", f"group-attributes:{what}-rewrite-failed", R["exc"], {"input": inp})
+            elif R.get("equals_first") != [True] * len(r["read"]["fields"]):
+                chk.fail("property", f"group-attributes:{what}-rewrite-differs",
+                         f"the fields read from the file, written again ({what}) and read: equal to the first read {R.get('equals_first')}; "
+                         f"properties then {[f_['props'] for f_ in R.get('read', {}).get('fields', [])]}, first {[f_['props'] for f_ in r['read']['fields']]}",
+                         {"input": inp, "expected": r["read"], "observed": R.get("read")})
+        if c["kind"] == "cfdm" and "file" in r.get("G2", {}) and r["G2"]["file"]["groups"] != F["groups"]:
+            chk.fail("property", "group-attributes:layout-not-reproduced", f"group attributes of the re-written file {r['G2']['file']['groups']}, of the first {F['groups']}",
+                     {"input": inp, "expected": F["groups"], "observed": r["G2"]["file"]["groups"]})
+    if model_ok and lits:
+        for fn_, L, LC in (("check_gattr", lits, lit_case), ("check_gattr_recorded", rlits, rlit_case)):
+            bad = lib.coq_bad_indices("C11", REQ, fn_, L, chunk=400)
+            stats["_ncorr"] = stats.get("_ncorr", 0) + len(L)
+            for i in bad[:20]:
+                chk.fail("correspondence", "model-vs-impl:group-attributes", f"model and reader disagree ({fn_}) on {LC[i][1:]}",
+                         {"correspondence": "C11.Run." + fn_, "input": LC[i][0], "observed": LC[i][1:]})
+    return len(cases)
 
 
 # seed C11-s1: the smallest placement (coordinate, bounds and terms in /g1, data in /g1/g2)
@@ -1383,6 +1690,11 @@ def check_field_case(chk, c, r, spec, variables, dimname, bump):
                      {"input": inp, "observed": what})
     if r.get("G_equals_F") is False:
         chk.fail("property", "grouped-differs-from-flat", "the fields read from the grouped and the flat file differ", {"input": inp})
+    if "h5_exc" in G or ("h5_nfields" in G and (G["h5_nfields"] != 1 or G.get("h5_equals") is not True or G.get("h5_names") is not True)):
+        if G.get("equals_orig") is True:
+            chk.fail("property", "h5netcdf-differs:field",
+                     "the grouped file read with netcdf_backend='h5netcdf' differs from the original although the netCDF4 read-back equals it: "
+                     + str({k: v for k, v in G.items() if k.startswith("h5_")}), {"input": inp, "observed": {k: v for k, v in G.items() if k.startswith("h5_")}})
     # a variable is only ever placed where its dimensions are visible, and they are the intended ones
     lay = G.get("layout", {})
     for gp, g in lay.items():
